@@ -228,6 +228,38 @@ def rule_child(ctx, rep):
     rep.check(bool(fs) and bool(ts), "C16.wq", "create_worker.clears-state", "PAUSE/PAUSED and tid are cleared before the worker is (re)created", "worker re-created with stale PAUSE/PAUSED/tid", [pc[0].where()])
     if fs:
         rep.must_pass("C16.wq", "create_worker.clear≺create", w, [w.entry()], pc, lambda i: i in fs, include_start=True, what="flags cleared before pthread_create")
+        # which bits: exactly the pause handshake bits (derived from their writers)
+        fm = ctx.mod("cds", "flat")
+        wt = fm.fn("workqueue_thread")
+        pw = fm.fn("urcu_workqueue_pause_worker")
+        po = sorted(set(ir.const_of(pw, e.val) for e in pat.accesses(pw, "urcu_workqueue.flags", ("rmw",)) if e.rop == "or"))
+        wo = sorted(set(ir.const_of(wt, e.val) for e in pat.accesses(wt, "urcu_workqueue.flags", ("rmw",)) if e.rop == "or"))
+        pat.require(len(po) == 1, "workqueue PAUSE writer")
+        PAUSE = po[0]
+        paused = [x for x in wo if wt.reach([e.inst for e in pat.accesses(wt, "urcu_workqueue.flags", ("rmw",)) if e.rop == "or" and ir.const_of(wt, e.val) == x],
+                                            [e.inst for e in pat.accesses(wt, "urcu_workqueue.flags", ("rmw",)) if e.rop == "and"])[0] is not None]
+        pat.require(len(paused) == 1, "workqueue PAUSED bit")
+        PAUSED = paused[0]
+        cleared = 0
+        okshape = True
+        for s_ in fs:
+            e = ir.expr(w, s_.args[0], 8)
+            keep = 0xffffffff
+
+            def walk(x):
+                nonlocal keep, okshape
+                if x[0] == "bin" and x[1] == "and" and x[3][0] == "c":
+                    keep &= (x[3][1] & 0xffffffff)
+                    walk(x[2])
+                elif x[0] == "load" and x[1].endswith("urcu_workqueue.flags"):
+                    pass
+                else:
+                    okshape = False
+            walk(e)
+            cleared |= (~keep) & 0xffffffff
+        rep.check(okshape and cleared == (PAUSE | PAUSED), "C16.wq", "create_worker.clears-PAUSE+PAUSED", "exactly PAUSE (0x%x) and PAUSED (0x%x) are cleared before the worker is re-created" % (PAUSE, PAUSED),
+                  "create_worker clears bits 0x%x, expected PAUSE|PAUSED = 0x%x: a stale %s bit survives in the child (its next fork no longer waits for the worker / never resumes)"
+                  % (cleared, PAUSE | PAUSED, "PAUSED" if not cleared & PAUSED else "PAUSE" if not cleared & PAUSE else "other"), [fs[0].where()])
 
 
 def rule_bp_handoff(ctx, rep):
